@@ -120,6 +120,48 @@ def _worker(job):
                         ok = got == comps and (neg == (b < a) or (not any(comps) and b < a))
                     if not ok and len(bad) < 300:
                         bad.append((a.isoformat(), (b - a).days * 86400, fmt, text, ("-" if b < a else "") + " ".join(str(c) for c in comps)))
+    # years / months with finer units that skip the days (and the hours): what the coarse unit does not take is carried on
+    def addm_dt(d, k):
+        t = d.year * 12 + d.month - 1 + k
+        return d.replace(year=t // 12, month=t % 12 + 1)
+    for p1 in job:
+        a = p1.replace(day=min(p1.day, 28))
+        for secs in (3600 * 5, 86400 * 61 + 3600 * 5, 86400 * 426 + 1800, 86400 * 790 + 59):
+            for sgn in (1, -1):
+                b = a + datetime.timedelta(seconds=secs * sgn)
+                lo, hi = (a, b) if a <= b else (b, a)
+                if lo.day > 28:
+                    continue
+                T = (hi.year - lo.year) * 12 + hi.month - lo.month
+                if addm_dt(lo, T) > hi:
+                    T -= 1
+                rm = int((hi - addm_dt(lo, T)).total_seconds())
+                Y = hi.year - lo.year
+                if addm_dt(lo, 12 * Y) > hi:
+                    Y -= 1
+                ry = int((hi - addm_dt(lo, 12 * Y)).total_seconds())
+                for fmt, comps in (("%Y %H", [Y, ry // 3600]), ("%Y %M", [Y, ry // 60]), ("%Y %d %H", [Y, ry // 86400, ry % 86400 // 3600]),
+                                   ("%m %H", [T, rm // 3600]), ("%m %d %M", [T, rm // 86400, rm % 86400 // 60]),
+                                   ("%Y %m %H", [T // 12, T % 12, rm // 3600]), ("%Y %S", [Y, ry])):
+                    try:
+                        f = call("determine_durfmt", cstr(fmt))
+                        d1, d2 = rec(a), rec(b)
+                        typ = call("determine_durtype", dict(d1), dict(d2), dict(f))
+                        dur = call("dt_dtdiff", typ, dict(d1), dict(d2))
+                        buf = [0] * 256
+                        ln = call("__strfdtdur", CPtr(buf, 0), 256, cstr(fmt), dict(dur), dict(f), 0)
+                        text = bytes(buf[:ln]).decode("latin-1")
+                    except fold.Abort as e:
+                        text = "abort: %s" % e
+                    n += 1
+                    m = re.fullmatch("(-?)" + " ".join(["([0-9]+)"] * len(comps)), text)
+                    ok = False
+                    if m:
+                        got = [int(x) for x in m.groups()[1:]]
+                        neg = m.group(1) == "-"
+                        ok = got == comps and (neg == (b < a) or (not any(comps) and b < a))
+                    if not ok and len(bad) < 300:
+                        bad.append((a.isoformat(), int((b - a).total_seconds()), fmt, text, ("-" if b < a else "") + " ".join(str(c) for c in comps)))
     return n, bad
 
 
